@@ -24,7 +24,7 @@ mod real {
             tick_global(&format!("Active op sequence so far {:?}, next op kind {}", ops, kind));
             let idx = |rng: &mut Rng, len: u64| -> u64 { if rng.below(8) == 0 { len + rng.below(3) } else { rng.below(len.max(1)) } };
             let (op, res): (Vec<i128>, Vec<i128>) = match kind {
-                0 => { len = rng.below(if thorough { 24 } else { 12 }); a.reset(len as usize); (vec![0, len as i128], vec![0]) }
+                0 => { len = if rng.below(6) == 0 { rng.range(60, if thorough { 200 } else { 140 }) } else { rng.below(if thorough { 24 } else { 12 }) }; a.reset(len as usize); (vec![0, len as i128], vec![0]) }
                 1..=4 => { let i = idx(rng, len); (vec![1, i as i128], pk(catch(|| { a.remove(i as usize); vec![0] }))) }
                 5 | 6 => { let i = idx(rng, len); (vec![2, i as i128], pk(catch(|| vec![0, a.contains(i as usize) as i128]))) }
                 7 | 8 => (vec![3], pk(catch(|| { let mut v = vec![0]; v.extend(a.iter().map(|x| x as i128)); v }))),
@@ -50,6 +50,10 @@ mod real {
         let mut u = LinkageUnionFind::new();
         let mut len = 0u64;
         let mut next = 0u64;
+        // shadow of the parent array, only to know the next fresh label exactly (a
+        // union of two labels with the same root is a no-op and consumes no label)
+        let mut shadow: Vec<u64> = vec![];
+        let sfind = |sh: &Vec<u64>, mut x: u64| -> u64 { while sh[x as usize] != x { x = sh[x as usize]; } x };
         let (mut ops, mut out) = (vec![], vec![]);
         let nops = rng.range(4, if thorough { 60 } else { 30 });
         for k in 0..nops {
@@ -58,14 +62,20 @@ mod real {
             let size = if len == 0 { 0 } else { 2 * len - 1 };
             let idx = |rng: &mut Rng| -> u64 { if rng.below(10) == 0 { size + rng.below(2) } else { rng.below(size.max(1)) } };
             let (op, res): (Vec<i128>, Vec<i128>) = match kind {
-                0 => { len = rng.below(if thorough { 16 } else { 9 }); next = len; u.reset(len as usize); (vec![0, len as i128], vec![0]) }
+                0 => {
+                    len = rng.below(if thorough { 16 } else { 9 }); next = len; u.reset(len as usize);
+                    shadow = (0..if len == 0 { 0 } else { 2 * len - 1 }).collect();
+                    (vec![0, len as i128], vec![0])
+                }
                 1..=4 => { let c = idx(rng); (vec![1, c as i128], pk(catch(|| vec![0, u.find(c as usize) as i128]))) }
                 _ => {
                     // labels below the next fresh parent (any node, root or not): parents stay
                     // strictly above children, so `find` terminates; rarely an out-of-range label
                     let pick = |rng: &mut Rng| -> u64 { if rng.below(12) == 0 { size + rng.below(2) } else { rng.below(next.max(1)) } };
                     let (x, y) = (pick(rng), pick(rng));
-                    next += 1;
+                    if x < size && y < size && next < size && sfind(&shadow, x) != sfind(&shadow, y) {
+                        shadow[x as usize] = next; shadow[y as usize] = next; next += 1;
+                    }
                     (vec![2, x as i128, y as i128], pk(catch(|| { u.union(x as usize, y as usize); vec![0] })))
                 }
             };
